@@ -4,7 +4,8 @@
    Model: Model/Producer.v.  ODispatch / OBatchDone are ghost markers of _send_batch taking the queue and of
    _complete_batch_send; OSendProduce a m pls = client.send_produce_request number a of the batch with payloads pls
    (message ids (send id, index) in order); OSched tid k kind = reactor.callLater(init * F^k). *)
-From AV Require Import Base.Util Model.Producer Proofs.ProducerBase Proofs.ProducerInv Proofs.ProducerC09 Proofs.ProducerBackoffQ.
+From AV Require Import Base.Util Model.Producer Proofs.ProducerBase Proofs.ProducerInv Proofs.ProducerC09 Proofs.ProducerC09b
+  Proofs.ProducerBackoffQ.
 From Coq Require Import QArith Sorted.
 Open Scope Z_scope.
 
@@ -74,6 +75,21 @@ Theorem C09_acked_reported : forall c s pls cur v s' out x off y, Inv s -> ph s 
   In (x, 0, off) (resps_of v) -> In y (sends_of pls x) -> In (s_id y) (outstanding s) -> In (s_id y) (oc out).
 Proof. exact acked_reported. Qed.
 Print Assumptions C09_acked_reported.
+
+(* Never re-sent: once a batch has made its first attempt (payloads pls, of which cur may still be sent), every step
+   either ends the batch or keeps pls and shrinks cur, and sends only payloads of cur; so over any continuation every
+   produce request made before the batch ends stays inside cur - a payload that dropped out (acknowledged, above) is
+   never sent again. *)
+Theorem C09_shrink_step : forall c s e s' out pls cur, Inv s -> PInv c s -> sent_phase (ph s) pls cur ->
+  step c s e = (s', out) ->
+  In OBatchDone out \/
+  (exists cur', sent_phase (ph s') pls cur' /\ incl cur' cur /\ sp_within cur out).
+Proof. exact shrink_step. Qed.
+Print Assumptions C09_shrink_step.
+Theorem C09_never_resent : forall c evs s s' tr pls cur, Inv s -> PInv c s -> sent_phase (ph s) pls cur ->
+  run c s evs = (s', tr) -> sp_within cur (until_done (outs_of tr)).
+Proof. exact never_resent_run. Qed.
+Print Assumptions C09_never_resent.
 
 (* Per-partition order: over the whole trace of any run, the messages of first-attempt payloads for a topic-partition
    are strictly increasing in (send id, index within the send); send ids are submission order, so messages accepted for
